@@ -984,8 +984,17 @@ pub fn run(cx: &mut Ctx) {
         }
     }
 
+    // census neighbourhoods (the crate's validators and windowing steps next to value-only steps, through the real
+    // planner): the concrete inputs behind `helper_builders_not_movable` / `validation_builders_not_movable`
+    crate::c17::planner_neighbourhood_cases(cx);
+    crate::c13::windowing_neighbourhood_cases(cx);
+
     // builder programs: explain() and planned == reference
     let o = pipe::CheckOpts { par_vs_seq: false, vs_reference: true };
+    // GBK + lifted combine with a lawful NON-commutative combiner: the direct combine must give the literal
+    // group-then-combine's per-key result (last value in source order), in both modes
+    let n = cx.budget(250, 2500);
+    pipe::ordered_comb_cases(cx, n, &o);
     let n = cx.budget(500, 6000);
     for i in 0..n {
         let opts = pipe::GenOpts { max_steps: 8, max_rows: 20, barriers: true, joins: i % 7 == 0, globals: true, nonlocal_batches: false };
